@@ -1192,15 +1192,22 @@ class PerturbedDroplet3D(PerturbedDropletBase):
     def volume(self) -> float:
         """float: volume of the droplet (determined numerically)"""
 
+        radius = self.radius
+        if radius == 0:
+            return 0.0
+
         def integrand(θ, φ):
-            """Helper function calculating the integrand."""
-            r = self.interface_distance(θ, φ)
+            """Helper function calculating the integrand for a unit radius."""
+            r = self.interface_distance(θ, φ) / radius
             return r**3 * np.sin(θ) / 3
 
+        # The integral is determined for a droplet of unit radius and scaled afterwards,
+        # since the numerical integration stops based on an absolute tolerance, which
+        # would otherwise make the accuracy depend on the unit of length
         volume = integrate.dblquad(
             integrand, 0, 2 * np.pi, lambda _: 0, lambda _: np.pi
         )[0]
-        return volume  # type: ignore
+        return radius**3 * volume  # type: ignore
 
     @volume.setter
     def volume(self, volume: float) -> None:
